@@ -51,6 +51,7 @@ class PathAnalysis:
 
     INFEASIBLE = object()
     STATE_CAP = 400
+    MAX_STEPS = 400000
     stable_fields = ()  # record fields whose tests may be correlated along a path
 
     def __init__(self, prog):
@@ -418,7 +419,7 @@ class PathAnalysis:
         while work:
             bid, st = work.pop()
             steps += 1
-            if steps > 400000:
+            if steps > self.MAX_STEPS:
                 raise AnalysisBroken("state explosion in %s" % func.name)
             b = func.blocks[bid]
             env = dict(st[0])
